@@ -153,6 +153,7 @@ class PGWorld(World):
         # for-loop over update()): the trajectory must not depend on max_iter
         plan["max_iter"] = rng.choice([K + 5, K + 5, K + 5, max(1, K // 2), min(K, 3), K])
         # boundary budgets (own generator: the other sessions' plans stay what they were)
+        plan["call_style"] = random.Random("pg-callstyle:%d" % seed).choice(["keyword"] * 5 + ["positional"])
         r_mi = random.Random("pg-maxiter:%d" % seed)
         if r_mi.random() < 0.1:
             plan["max_iter"] = r_mi.choice([0, 1, 1, 2])
@@ -307,9 +308,12 @@ class PGWorld(World):
                     return (MH @ (M @ v.ravel() - y)).reshape(v.shape)
             gradf = common.Proxy("gradf", gradf_raw, ret, stats, interfere=itf)
             use_prox = not (gk == "none" and plan["seed"] % 2 == 0)
-            alg = common.lib_call("GradientMethod.__init__", -1, GradientMethod, gradf, x_caller, alpha,
-                                  proxg=proxg if use_prox else None,
-                                  accelerate=k["accelerate"], max_iter=plan.get("max_iter", plan["K"] + 5), tol=0)
+            cargs, ckw = (gradf, x_caller, alpha), dict(proxg=proxg if use_prox else None, accelerate=k["accelerate"],
+                                                      max_iter=plan.get("max_iter", plan["K"] + 5), tol=0)
+            if plan.get("call_style") == "positional":
+                cargs, ckw = common.as_positional("GradientMethod", cargs, ckw)
+                stats["buggify.positional_arguments"] += 1
+            alg = common.lib_call("GradientMethod.__init__", -1, GradientMethod, *cargs, **ckw)
             site = "GradientMethod"
             STATE = GM_STATE
             Fprev = [prob.F(x0)]
@@ -418,9 +422,12 @@ class PGWorld(World):
             Acb = common.Proxy("A", A_raw, ret if al == "none" else "fresh", stats, interfere=itf)
             AHcb = common.Proxy("AH", AH_raw, ret if al == "none" else "fresh", stats, interfere=itf)
             proxfc = common.Proxy("proxfc", proxfc_raw, ret, stats, interfere=itf)
-            alg = common.lib_call("PrimalDualHybridGradient.__init__", -1, PrimalDualHybridGradient,
-                                  proxfc, proxg, Acb, AHcb, x_caller, u_caller, tau_arg, sigma_arg,
-                                  gamma_primal=gp, gamma_dual=gd, max_iter=plan.get("max_iter", plan["K"] + 5), tol=0)
+            cargs = (proxfc, proxg, Acb, AHcb, x_caller, u_caller, tau_arg, sigma_arg)
+            ckw = dict(gamma_primal=gp, gamma_dual=gd, max_iter=plan.get("max_iter", plan["K"] + 5), tol=0)
+            if plan.get("call_style") == "positional":
+                cargs, ckw = common.as_positional("PrimalDualHybridGradient", cargs, ckw)
+                stats["buggify.positional_arguments"] += 1
+            alg = common.lib_call("PrimalDualHybridGradient.__init__", -1, PrimalDualHybridGradient, *cargs, **ckw)
             site = "PrimalDualHybridGradient"
             STATE = PD_STATE
             if not accel:
